@@ -354,9 +354,12 @@ LinTicks(r, rq, body, t) ==
         THEN {tt \in {t} : LET o == Op(rq.kind, db, rq.args, tt) IN o.db = db /\ o.res = body}
         ELSE {})
        \cup
-       {tt \in UNION {{s.dt, t} : s \in GetOr(snaps, r, {})} :
-           \E s \in GetOr(snaps, r, {}) : tt \in {s.dt, t} /\
-              LET o == Op(rq.kind, s.S, rq.args, tt) IN o.db = s.S /\ o.res = body}
+       \* a request that has had its effect is answered from it: a later look at the database (for
+       \* example a retry that re-reads its own write) is not a linearization point any more
+       (IF Has(cand, r) THEN {}
+        ELSE {tt \in UNION {{s.dt, t} : s \in GetOr(snaps, r, {})} :
+                \E s \in GetOr(snaps, r, {}) : tt \in {s.dt, t} /\
+                   LET o == Op(rq.kind, s.S, rq.args, tt) IN o.db = s.S /\ o.res = body})
 
 FaultStatuses == {STORE_ERROR}
 
